@@ -15,8 +15,36 @@
    metamorphic oracle `vh c06 oracle`; refuted for the grid algorithm exactly on the known class):
      C06_abs_blind_engine (+ _layouts)     two trees that coincide up to oeq/leq (= up to content size / order) outside the
                                            subtrees of out-of-flow nodes stay so through any evaluation; every node that is
-                                           not itself out of flow returns oeq outputs and keeps leq stored layouts. *)
+                                           not itself out of flow returns oeq outputs and keeps leq stored layouts.
+   BLOCK in-flow kernel (Model/Block.v `block_inflow` = perform_final_layout_on_in_flow_children, tied by C10's K1/K2; any `Num`
+   instance, so also binary32 bit for bit) -- discharges the block part of AbsBlind for what is modelled:
+     C06_block_inflow_abs_blind            replacing absolute items by ANY other absolute items, and the children's reported
+                                           content sizes by any others, changes no in-flow item's record (location, size,
+                                           margins, known dimensions / available width passed to it, margin sets), no absolute
+                                           item's static position, nor intrinsic_outer_height, nor the two returned margin
+                                           sets, nor compute_inner's collapse-through / outer height / output margin decisions;
+                                           inflow_content_size is unchanged when the child outputs are unchanged
+     C06_block_inflow_delete_absolute      DELETING the absolute items deletes their records and changes nothing else
+   ITEM GENERATION (Gen/FiltersGen.v: the iterator pipelines translated from the source on every run):
+     C06_flex_items_ignore_absolute        flex: the item list (order = source index included) does not depend on the styles of
+                                           absolute children; deleting them changes only the indices
+     C06_grid_items_ignore_absolute        grid: same for the children handed to placement (the size ESTIMATE is not blind:
+                                           C06_grid_estimate_absolute_refuted)
+     C06_block_items_absolute_flagged      block: absolute children stay in the item list; changing such a child's style changes
+                                           that one item only (same length, same `order`s)
+     C06_block_source_predicates           the tests of the hand-written model are the predicates found in the source
+   BLOCK ALGORITHM as a resumption (Model/BlockAlg.v: compute_inner over the engine interface -- translated item pipeline,
+   measuring queries of determine_content_based_container_width, the in-flow step function of Model/Block.v with the child
+   outputs as ANSWERS, the absolute pass as arbitrary traffic addressed to the absolute item's own node, the hidden pass):
+     C06_block_algorithm_abs_blind         AbsBlind HOLDS for it (ab = box-generating and position:absolute; oeq / leq = equal
+                                           up to content_size): no longer a premise for block containers
+     C06_block_engine_instance             hence the conclusion of C06_abs_blind_engine for every engine whose nodes are block
+                                           containers or leaves
+     C06_block_resumption_runs_kernel      the in-flow part of the resumption, answered by any function, hands on exactly the
+                                           state and records of Model/Block.v `inflow_loop` (what C10's K2 runs) *)
 From Coq Require Import List Bool Arith NArith ZArith Lia.
+From TV Require Import Num.Num Gen.BlockGen Model.Block Model.BlockLeaf Model.BlockTree Proofs.BlockBlind.
+From TV Require Import Model.FiltersBase Gen.FiltersGen Model.ItemFilters Proofs.ItemFiltersBase Proofs.ItemFiltersAbs Model.BlockAlg Proofs.BlockAlgBlind.
 From TV Require Import Model.Engine Model.EngineToy Proofs.EngineMemo Proofs.EngineBlind Proofs.EngineAbs Proofs.EngineAbsToy.
 From TV Require Import Model.PlacementBase Gen.PlacementGen Model.Placement Proofs.PlacementBlind.
 Import ListNotations.
@@ -77,6 +105,128 @@ Example C06_grid_known_class_examples :
   ~ harmless 0 0 (mkChild (mkLn Auto Auto) (mkLn (Span 2) Auto)).
 Proof. exact harmless_examples. Qed.
 
+(* ---------------------------------------------------------------------------------------------- block in-flow kernel *)
+
+(* xrel x y: both items position:absolute (all else arbitrary), or the same in-flow item with child outputs equal up to
+   content_size.  rrel r r': equal in-flow records; absolute records equal except `order` and scrollbar size (copied from the item) *)
+Theorem C06_block_inflow_abs_blind :
+  forall (T : Type) (N : Num T) (st : BStyle T) (inp : BInput T) (P : Params T) (xs xs' : list (Item T * ChildOut T)),
+    Forall2 xrel xs xs' ->
+    let io := block_inflow P xs in
+    let io' := block_inflow P xs' in
+    Forall2 rrel (io_results io) (io_results io') /\
+    filter (fun r => ir_inflow r) (io_results io) = filter (fun r => ir_inflow r) (io_results io') /\
+    map (fun r => (ir_static_x r, ir_static_y r)) (io_results io) = map (fun r => (ir_static_x r, ir_static_y r)) (io_results io') /\
+    io_height io = io_height io' /\ io_first_set io = io_first_set io' /\ io_last_set io = io_last_set io' /\
+    block_can_collapse_through st inp (io_results io) = block_can_collapse_through st inp (io_results io') /\
+    block_outer_height st inp (io_height io) = block_outer_height st inp (io_height io') /\
+    block_output_margins st inp io = block_output_margins st inp io' /\
+    (Forall2 xrel_strict xs xs' -> io_content_size io = io_content_size io').
+Proof.
+  intros T N st inp P xs xs' Hx io io'.
+  destruct (block_inflow_abs_blind P xs xs' Hx) as (R & Hh & Hf & Hl). fold io io' in R, Hh, Hf, Hl.
+  destruct (block_decisions_abs_blind st inp P xs xs' Hx) as (D1 & D2 & D3). fold io io' in D1, D2, D3.
+  split; [exact R|]. split; [apply (rrel_inflow_eq _ _ R)|]. split.
+  - clear -R. induction R as [|r r' rs rs' Hr _ IH]; [reflexivity|]. cbn [map].
+    destruct (rrel_static r r' Hr) as [-> ->]. rewrite IH. reflexivity.
+  - repeat split; try assumption. intros Hs. apply block_inflow_abs_blind_content. exact Hs.
+Qed.
+
+Theorem C06_block_inflow_delete_absolute :
+  forall (T : Type) (N : Num T) (st : BStyle T) (inp : BInput T) (P : Params T) (xs : list (Item T * ChildOut T)),
+    let io := block_inflow P xs in
+    let io' := block_inflow P (in_flow_only xs) in
+    io' = mkInflowOut (filter (fun r => ir_inflow r) (io_results io)) (io_content_size io) (io_height io) (io_first_set io) (io_last_set io) /\
+    block_can_collapse_through st inp (io_results io) = block_can_collapse_through st inp (io_results io') /\
+    block_outer_height st inp (io_height io) = block_outer_height st inp (io_height io') /\
+    block_output_margins st inp io = block_output_margins st inp io'.
+Proof.
+  intros T N st inp P xs io io'. split; [apply block_inflow_delete_absolute|apply block_decisions_delete_absolute].
+Qed.
+
+(* the premises are satisfiable and the conclusion is not vacuous: an in-flow item between two different absolute items *)
+Example C06_block_inflow_example :
+  forall (T : Type) (N : Num T) (a b c : Item T) (o o1 o2 : ChildOut T),
+    position_is_absolute (it_position a) = true -> position_is_absolute (it_position b) = true ->
+    position_is_absolute (it_position c) = false ->
+    Forall2 xrel [(a, o1); (c, o); (b, o2)] [(b, o2); (c, o); (a, o1)] /\ in_flow_only [(a, o1); (c, o); (b, o2)] = [(c, o)].
+Proof.
+  intros T N a b c o o1 o2 Ha Hb Hc. split.
+  - constructor; [left; split; assumption|]. constructor; [right; repeat split; exact Hc|].
+    constructor; [left; split; assumption|constructor].
+  - unfold in_flow_only, is_abs. cbn [filter fst]. rewrite Ha, Hb, Hc. reflexivity.
+Qed.
+
+(* ---------------------------------------------------------------------------------------------- item generation *)
+
+(* flex (generate_anonymous_flex_items as translated): two style assignments to the same children that agree except on
+   position:absolute children give the SAME item list, for every item builder (order = source index and node id included);
+   and deleting the out-of-flow children changes the items only in their index *)
+Theorem C06_flex_items_ignore_absolute :
+  forall (C S I : Type) (position : S -> GPosition) (bgm : S -> GBoxGenerationMode) (f f' : C -> S) (cs : list C),
+    (forall (build : nat -> C -> S -> I),
+       agree_except (s_absolute position) f f' cs ->
+       flex_generate_items f position bgm build cs = flex_generate_items f' position bgm build cs) /\
+    (forall (build : C -> S -> I),
+       flex_generate_items f position bgm (fun _ => build) (filter (fun c => negb (s_absolute position (f c))) cs) =
+       flex_generate_items f position bgm (fun _ => build) cs) /\
+    (* `order` is the child's index in the child list: every item is `build i c (f c)` for the i-th child c *)
+    (forall (build : nat -> C -> S -> I),
+       Forall (fun it => exists i c, nth_error cs i = Some c /\ it = build i c (f c)) (flex_generate_items f position bgm build cs)).
+Proof.
+  intros C S I position bgm f f' cs. split; [|split].
+  - intros build Ha. apply flex_absolute_blind. exact Ha.
+  - intros build. apply flex_delete_absolute.
+  - intros build. apply flex_items_indexed.
+Qed.
+
+Theorem C06_grid_items_ignore_absolute :
+  forall (C S : Type) (position : S -> GPosition) (bgm : S -> GBoxGenerationMode) (f f' : C -> S) (cs : list C),
+    agree_except (s_absolute position) f f' cs ->
+    grid_in_flow_children f position bgm cs = grid_in_flow_children f' position bgm cs.
+Proof. intros C S position bgm f f' cs Ha. apply grid_in_flow_absolute_blind. exact Ha. Qed.
+
+(* block (generate_item_list as translated): absolute children stay items *)
+Theorem C06_block_items_absolute_flagged :
+  forall (C S I : Type) (position : S -> GPosition) (bgm : S -> GBoxGenerationMode) (f f' : C -> S) (cs : list C)
+         (build : nat -> C -> S -> I),
+    agree_except (s_visible_absolute position bgm) f f' cs ->
+    Forall2 (fun x y => exists o c, x = build o c (f c) /\ y = build o c (f' c) /\
+                                    (f c = f' c \/ (s_visible_absolute position bgm (f c) = true /\
+                                                    s_visible_absolute position bgm (f' c) = true)))
+            (block_generate_items f position bgm build cs) (block_generate_items f' position bgm build cs).
+Proof. intros C S I position bgm f f' cs build Ha. apply block_absolute_flagged. exact Ha. Qed.
+
+(* the tests of the hand-written block model are the predicates found in the source: the in-flow loop's absolute branch, the
+   filter of determine_content_based_container_width, the `.all(..)` of all_in_flow_children_can_be_collapsed_through; and the
+   absolute branch of the loop was checked (by the translator) to assign fields of `item` only and never to call `tree` *)
+Theorem C06_block_source_predicates :
+  (forall (T : Type) (it : Item T) (ct : bool),
+     position_is_absolute (it_position it) = block_inflow_absolute_branch_cond (gpos (it_position it)) ct /\
+     negb (position_is_absolute (it_position it)) = block_content_width_visits (gpos (it_position it)) ct /\
+     orb (negb (negb (position_is_absolute (it_position it)))) ct = block_all_collapsible_pred (gpos (it_position it)) ct /\
+     position_is_absolute (it_position it) = block_absolute_pass_visits (gpos (it_position it)) ct) /\
+  block_inflow_absolute_branch_is_local = true /\ block_tree_calls_address_item_only = true /\
+  (* placement's child iterator of Model/Placement.v, on the C06 family of the placement K (no display:none child) *)
+  (forall (C S : Type) (position : S -> GPosition) (bgm : S -> GBoxGenerationMode) (style_of : C -> S) (placement : S -> child)
+          (cs : list C),
+     Forall (fun c => bgm (style_of c) = BoxGenerationMode_Normal) cs ->
+     in_flow_children (map (fun c => (kind_of (position (style_of c)) (bgm (style_of c)), placement (style_of c))) cs) =
+     map (fun ics : nat * C * S => (Z.of_nat (fst (fst ics)), placement (snd ics))) (grid_in_flow_children style_of position bgm cs)).
+Proof.
+  split; [|split; [reflexivity|split; [reflexivity|]]].
+  - intros T it ct. split; [apply inflow_branch_is_generated|]. split; [apply content_width_filter_is_generated|].
+    split; [apply all_collapsible_is_generated|apply abs_pass_filter_is_generated].
+  - intros C S position bgm style_of placement cs. apply placement_in_flow_is_generated_no_hidden.
+Qed.
+
+(* determine_content_based_container_width over leaf children (Model/BlockTree.v, run by C10's K1) skips the absolute items *)
+Theorem C06_block_content_width_ignores_absolute :
+  forall (T : Type) (N : Num T) (items : list (Item T * (BStyle T * Measure T))) (aw : Avail T),
+    content_based_width (filter (fun x => negb (position_is_absolute (it_position (fst x)))) items) aw =
+    content_based_width items aw.
+Proof. intros T N items aw. apply content_based_width_delete. Qed.
+
 (* ---------------------------------------------------------------------------------------------- engine *)
 
 Theorem C06_abs_blind_engine :
@@ -119,9 +269,77 @@ Proof.
   destruct a_run as (o & t & o' & t' & E & E' & A & B & C & _). exists o, t, o', t'. repeat split; assumption.
 Qed.
 
+(* ---------------------------------------------------------------------------------------------- the block algorithm *)
+
+Theorem C06_block_algorithm_abs_blind :
+  forall (T : Type) (N : Num T) (pre : BStyle T -> BIn T -> BIn T) (abs_child : @AbsChild T),
+    AbsChildLocal abs_child ->
+    AbsBlind (BStyle T) (BIn T) (ChildOut T) (BLayout T) (block_alg pre abs_child) bs_visible_absolute out_eq lay_eq.
+Proof. intros T N pre abs_child Hloc. apply block_alg_abs_blind. exact Hloc. Qed.
+
+(* engines made of block containers (sel s = true) and leaves: two trees that coincide up to content_size outside the
+   subtrees of box-generating absolute nodes stay so through any pair of evaluations, and every node that is not itself such
+   a node returns the same output up to content_size *)
+Theorem C06_block_engine_instance :
+  forall (T : Type) (N : Num T) (pre : BStyle T -> BIn T -> BIn T) (abs_child : @AbsChild T)
+         (sel : BStyle T -> bool) (leaf : BStyle T -> BIn T -> ChildOut T)
+         (mode : BIn T -> RunMode) (in_eqb : BIn T -> BIn T -> bool) (is_none : BStyle T -> bool)
+         (hidden_out : ChildOut T) (zero_lay : BLayout T),
+    AbsChildLocal abs_child ->
+    let algo := fun s st i => if sel s then block_alg pre abs_child s st i
+                              else Engine.Ret (BIn T) (ChildOut T) (BLayout T) (leaf s i) in
+    forall f f' t t' i o t1 o' t1',
+      asim (BStyle T) (BIn T) (ChildOut T) (BLayout T) bs_visible_absolute out_eq lay_eq t t' ->
+      memo (BStyle T) (BIn T) (ChildOut T) (BLayout T) mode in_eqb is_none hidden_out zero_lay algo f t i = Some (o, t1) ->
+      memo (BStyle T) (BIn T) (ChildOut T) (BLayout T) mode in_eqb is_none hidden_out zero_lay algo f' t' i = Some (o', t1') ->
+      asim (BStyle T) (BIn T) (ChildOut T) (BLayout T) bs_visible_absolute out_eq lay_eq t1 t1' /\
+      (bs_visible_absolute (style_of (BStyle T) (BIn T) (ChildOut T) (BLayout T) t) = false -> out_eq o o').
+Proof.
+  intros T N pre abs_child sel leaf mode in_eqb is_none hidden_out zero_lay Hloc algo f f' t t' i o t1 o' t1' Hs E E'.
+  eapply (C06_abs_blind_engine (BStyle T) (BIn T) (ChildOut T) (BLayout T) mode in_eqb is_none hidden_out zero_lay algo
+            bs_visible_absolute out_eq lay_eq); eauto.
+  - apply out_eq_refl.
+  - apply lay_eq_refl.
+  - apply AbsBlind_dispatch; [apply block_alg_abs_blind; exact Hloc|apply AbsBlind_leaf; apply out_eq_refl].
+Qed.
+
+(* the premise on the absolute-item routine is satisfiable *)
+Example C06_block_algorithm_example :
+  forall (T : Type) (N : Num T), AbsChildLocal (abs_child_simple (T := T)).
+Proof. intros T N. apply abs_child_simple_local. Qed.
+
+Theorem C06_block_resumption_runs_kernel :
+  forall (T : Type) (N : Num T) (ans : nat -> BIn T -> ChildOut T) (P : Params T) (items : list (@AItem T)) st acc k,
+    exists fuel0, forall fuel,
+      answer ans (fuel0 + fuel) (inflow_alg P st items acc k) =
+      answer ans fuel (k (fst (inflow_loop P st (answered ans P items)))
+                         (rev acc ++ combine items (snd (inflow_loop P st (answered ans P items))))).
+Proof. intros T N ans P items st acc k. apply inflow_alg_is_inflow_loop. Qed.
+
+(* ... and the input of each query is what the item's record carries, i.e. what C10's K2 / C06's K3 compare with the known
+   dimensions / available width the implementation passed to the child *)
+Theorem C06_block_resumption_query_inputs :
+  forall (T : Type) (N : Num T) (P : Params T) (st : State T) (it : Item T) (co : ChildOut T),
+    position_is_absolute (it_position it) = false ->
+    bi_known (child_input P it) = ir_known (snd (inflow_step P st it co)) /\
+    s_w (bi_avail (child_input P it)) = Definite (ir_avail_w (snd (inflow_step P st it co))) /\
+    bi_parent (child_input P it) = mkSize (Some (p_outer_width P)) None /\ bi_mode (child_input P it) = PerformLayout.
+Proof. intros T N P st it co A. apply child_input_is_recorded. exact A. Qed.
+
 Print Assumptions C06_grid_never_placed.
 Print Assumptions C06_grid_estimate_absolute_refuted.
 Print Assumptions C06_grid_estimate_absolute_refuted_sibling.
 Print Assumptions C06_grid_known_class.
 Print Assumptions C06_abs_blind_engine.
 Print Assumptions C06_abs_blind_layouts.
+Print Assumptions C06_block_inflow_abs_blind.
+Print Assumptions C06_block_inflow_delete_absolute.
+Print Assumptions C06_flex_items_ignore_absolute.
+Print Assumptions C06_grid_items_ignore_absolute.
+Print Assumptions C06_block_items_absolute_flagged.
+Print Assumptions C06_block_source_predicates.
+Print Assumptions C06_block_algorithm_abs_blind.
+Print Assumptions C06_block_engine_instance.
+Print Assumptions C06_block_resumption_runs_kernel.
+Print Assumptions C06_block_content_width_ignores_absolute.
+Print Assumptions C06_block_resumption_query_inputs.
